@@ -42,6 +42,8 @@ def site_id(vc, what, callee, counter):
 def add_clause_obligation(vc, ctx, clause, bindings, oid_name, kind='P', prop=None, path='', extra_meta=None):
     t, sub, defs = vc.eval_clause(clause, ctx, bindings)
     meta = {'clause': C.clause_source_name(vc.ccls, clause), 'path': path}
+    if getattr(vc, 'after_loop_cut', False):
+        meta['after_loop_cut'] = True       # the state here went through an arbitrary-iteration havoc: a native run cannot be asked to reproduce it
     meta.update(extra_meta or {})
     vc.add(Obligation(vc.oid(oid_name), kind, And_(ctx.pc, *defs), t, prop or vc.prop, meta=meta))
     return t
@@ -69,6 +71,9 @@ def contract_cut(vc, shape, pre=('inv',), post=('inv',), keep=CONFIG_FIELDS, cou
             add_clause_obligation(vc, ctx, comp, b, f'{comp}-at-call-{name}' + (f'#{k}' if k else ''), kind=kind,
                                   path=f'call:{fn.qual}@{getattr(node, "lineno", "?")}',
                                   extra_meta={'callee': fn.qual, 'component': comp})
+        if ('alias', name) not in vc.probed:
+            vc.probed.add(('alias', name))
+            vc.alias_obligation(ctx, 'call-' + name)
         havoc_state(I, ctx, args[0], shape, keep)
         for comp in post:
             assume_clause(vc, ctx, comp, b)
@@ -96,6 +101,7 @@ def loop_cut(vc, shape, inv=('inv',), keep=CONFIG_FIELDS, counter=None, kind='P'
             add_clause_obligation(vc, ctx, comp, b, f'{comp}-at-entry-of-loop{k}', kind=kind, path=f'loop-entry@{line}',
                                   extra_meta={'component': comp})
         havoc_state(I, ctx, s, shape, keep)
+        vc.after_loop_cut = True
         for comp in inv:
             assume_clause(vc, ctx, comp, b)
         c = I.truth(I.eval(st.test, ctx, env), ctx)
@@ -116,6 +122,7 @@ def loop_cut(vc, shape, inv=('inv',), keep=CONFIG_FIELDS, counter=None, kind='P'
                     add_clause_obligation(vc, body, comp, b, f'{comp}-kept-by-body-of-loop{k}', kind=kind,
                                           path=f'loop-body@{line}', extra_meta={'component': comp})
         ctx.assume(Not_(c))
+        vc.after_loop_cut = True
     return run
 
 
